@@ -297,4 +297,204 @@ theorem rtbss_as_extracted_full
   obtain ⟨h1, _, h3, _⟩ := rtbss_full m hv _ hτ hγ0 maxR hR h b hb hsf
   exact ⟨h1, h3⟩
 
+
+/-! ## (3) Witness: the agenda loop, on top of `witness_complete`
+
+  `wLoop` replays `while ( !agenda_.empty() )` for one action with the LP as an oracle.  Hypotheses on the two unmodelled pieces:
+  * `horacle` — `findWitness` is a COMPLETE search: it answers "no witness" only when U is non-empty and the candidate is nowhere on
+    the simplex strictly above U (its soundness — the returned point really is a witness — is not needed for this theorem);
+  * `hbest`   — `crossSumBestAtBelief` returns in-range projection indices (its optimality is `bestBackupAt_value`; not needed here).
+  Conclusion: whenever the loop has emptied the agenda, U has the envelope of the whole cross-sum at EVERY belief. -/
+
+def ValidChoice (k : Nat) (P : Nat → List Vec) (c : Choice) : Prop := c.length = k ∧ ∀ o, o < k → c.getD o 0 < (P o).length
+
+/-- "no witness": U is non-empty and the candidate is nowhere (on the simplex) strictly above U -/
+def NoWit (n k : Nat) (P : Nat → List Vec) (U : List Choice) (t : Choice) : Prop :=
+  U ≠ [] ∧ ∀ b, Simplex n b → dot n b (choiceSum n k P t) ≤ env n (U.map (choiceSum n k P)) b
+
+theorem noWit_mono (n k : Nat) (P : Nat → List Vec) (U : List Choice) (u t : Choice) (h : NoWit n k P U t) :
+    NoWit n k P (U ++ [u]) t := by
+  refine ⟨by simp, ?_⟩
+  intro b hb
+  refine le_trans (h.2 b hb) (env_mono _ _ _ b (by simpa using h.1) ?_)
+  intro α hα
+  rw [List.map_append]; exact List.mem_append_left _ hα
+
+theorem addVars_spec (vs : List Choice) : ∀ (ag tr : List Choice),
+    (∀ t ∈ ag, t ∈ (addVars vs ag tr).1) ∧ (∀ t ∈ tr, t ∈ (addVars vs ag tr).2) ∧
+    (∀ v ∈ vs, v ∈ (addVars vs ag tr).2) ∧
+    (∀ t ∈ (addVars vs ag tr).2, t ∈ tr ∨ t ∈ (addVars vs ag tr).1) := by
+  induction vs with
+  | nil => intro ag tr; simp only [addVars, List.foldl_nil]; exact ⟨fun _ h => h, fun _ h => h, by simp, fun _ h => Or.inl h⟩
+  | cons v vs ih =>
+    intro ag tr
+    have e : addVars (v :: vs) ag tr = addVars vs (if v ∈ tr then (ag, tr) else (v :: ag, v :: tr)).1 (if v ∈ tr then (ag, tr) else (v :: ag, v :: tr)).2 := by
+      simp only [addVars, List.foldl_cons]
+    rw [e]
+    by_cases hv : v ∈ tr
+    · simp only [hv, if_true]
+      obtain ⟨h1, h2, h3, h4⟩ := ih ag tr
+      refine ⟨h1, h2, ?_, h4⟩
+      intro x hx
+      rcases List.mem_cons.mp hx with rfl | hx
+      · exact h2 _ hv
+      · exact h3 x hx
+    · simp only [hv, if_false]
+      obtain ⟨h1, h2, h3, h4⟩ := ih (v :: ag) (v :: tr)
+      refine ⟨fun t ht => h1 t (List.mem_cons_of_mem _ ht), fun t ht => h2 t (List.mem_cons_of_mem _ ht), ?_, ?_⟩
+      · intro x hx
+        rcases List.mem_cons.mp hx with rfl | hx
+        · exact h2 _ List.mem_cons_self
+        · exact h3 x hx
+      · intro t ht
+        rcases h4 t ht with h | h
+        · rcases List.mem_cons.mp h with rfl | h
+          · exact Or.inr (h1 _ List.mem_cons_self)
+          · exact Or.inl h
+        · exact Or.inr h
+
+/-- loop invariant -/
+structure WInv (n k : Nat) (P : Nat → List Vec) (st : WState) : Prop where
+  valid : ∀ c ∈ st.U, ValidChoice k P c
+  vars : ∀ c ∈ st.U, ∀ v ∈ allVars k P c, v ∈ st.tried
+  tried : ∀ t ∈ st.tried, t ∈ st.agenda ∨ NoWit n k P st.U t
+  some : ∃ t, t ∈ st.tried
+
+theorem wInv_init (n k : Nat) (P : Nat → List Vec) : WInv n k P (wInit k) := by
+  refine ⟨by simp [wInit], by simp [wInit], ?_, ⟨List.replicate k 0, by simp [wInit]⟩⟩
+  intro t ht; left; simpa [wInit] using ht
+
+theorem wInv_step (n k : Nat) (P : Nat → List Vec) (oracle : List Vec → Vec → Option Vec) (best : Vec → Choice)
+    (horacle : ∀ (U : List Choice) (v : Choice), oracle (U.map (choiceSum n k P)) (choiceSum n k P v) = none → NoWit n k P U v)
+    (hbest : ∀ w, ValidChoice k P (best w)) (st : WState) (h : WInv n k P st) :
+    WInv n k P (wStep n k P oracle best st) := by
+  unfold wStep
+  cases hag : st.agenda with
+  | nil => simpa [hag] using h
+  | cons v rest =>
+    simp only []
+    cases hor : oracle (st.U.map (choiceSum n k P)) (choiceSum n k P v) with
+    | none =>
+      simp only []
+      refine ⟨h.valid, h.vars, ?_, h.some⟩
+      intro t ht
+      rcases h.tried t ht with hin | hnw
+      · rw [hag] at hin
+        rcases List.mem_cons.mp hin with rfl | hin
+        · exact Or.inr (horacle st.U _ hor)
+        · exact Or.inl hin
+      · exact Or.inr hnw
+    | some w =>
+      simp only []
+      obtain ⟨a1, a2, a3, a4⟩ := addVars_spec (allVars k P (best w)) (v :: rest) st.tried
+      obtain ⟨t0, ht0⟩ := h.some
+      refine ⟨?_, ?_, ?_, ⟨t0, a2 t0 ht0⟩⟩
+      · intro c hc
+        rcases List.mem_append.mp hc with hc | hc
+        · exact h.valid c hc
+        · simp at hc; subst hc; exact hbest w
+      · intro c hc x hx
+        rcases List.mem_append.mp hc with hc | hc
+        · exact a2 _ (h.vars c hc x hx)
+        · simp at hc; subst hc; exact a3 x hx
+      · intro t ht
+        rcases a4 t ht with hold | hnew
+        · rcases h.tried t hold with hin | hnw
+          · rw [hag] at hin; exact Or.inl (a1 t hin)
+          · exact Or.inr (noWit_mono n k P st.U (best w) t hnw)
+        · exact Or.inl hnew
+
+theorem wInv_loop (n k : Nat) (P : Nat → List Vec) (oracle : List Vec → Vec → Option Vec) (best : Vec → Choice)
+    (horacle : ∀ (U : List Choice) (v : Choice), oracle (U.map (choiceSum n k P)) (choiceSum n k P v) = none → NoWit n k P U v)
+    (hbest : ∀ w, ValidChoice k P (best w)) :
+    ∀ (fuel : Nat) (st : WState), WInv n k P st → WInv n k P (wLoop n k P oracle best fuel st) := by
+  intro fuel
+  induction fuel with
+  | zero => intro st h; exact h
+  | succ f ih => intro st h; exact ih _ (wInv_step n k P oracle best horacle hbest st h)
+
+theorem mem_allVars (k : Nat) (P : Nat → List Vec) (c : Choice) (o i : Nat) (ho : o < k) (hi : i < (P o).length)
+    (hne : i ≠ c.getD o 0) : c.set o i ∈ allVars k P c := by
+  unfold allVars
+  refine List.mem_flatMap.mpr ⟨o, List.mem_range.mpr ho, List.mem_map.mpr ⟨i, ?_, rfl⟩⟩
+  simp only [List.mem_filter, List.mem_range, bne_iff_ne, ne_eq]
+  exact ⟨hi, hne⟩
+
+theorem getD_set_choice (c : Choice) (o o' i : Nat) (ho : o < c.length) :
+    (c.set o i).getD o' 0 = if o' = o then i else c.getD o' 0 := by
+  by_cases h : o' = o
+  · subst h; simp [List.getD_eq_getElem?_getD, ho]
+  · simp [List.getD_eq_getElem?_getD, h, List.getElem?_set_ne (Ne.symm h)]
+
+/-- **witness_loop_complete** — for every action's projections `P` (any sizes), any complete LP oracle and any in-range
+    `crossSumBestAtBelief`: if `Witness`'s agenda loop has emptied its agenda (after any number of iterations), the set U it holds is
+    non-empty and has the envelope of the full cross-sum at every belief. -/
+theorem witness_loop_complete (n k : Nat) (P : Nat → List Vec) (hP : ∀ o, o < k → P o ≠ [])
+    (oracle : List Vec → Vec → Option Vec) (best : Vec → Choice)
+    (horacle : ∀ (U : List Choice) (v : Choice), oracle (U.map (choiceSum n k P)) (choiceSum n k P v) = none → NoWit n k P U v)
+    (hbest : ∀ w, ValidChoice k P (best w))
+    (fuel : Nat) (hdone : (wLoop n k P oracle best fuel (wInit k)).agenda = []) :
+    (wLoop n k P oracle best fuel (wInit k)).U ≠ [] ∧
+    ∀ b, Simplex n b →
+      env n ((wLoop n k P oracle best fuel (wInit k)).U.map (choiceSum n k P)) b = env n (crossTo n k P) b := by
+  have inv := wInv_loop n k P oracle best horacle hbest fuel (wInit k) (wInv_init n k P)
+  generalize wLoop n k P oracle best fuel (wInit k) = st at inv hdone
+  have hnw : ∀ t ∈ st.tried, NoWit n k P st.U t := by
+    intro t ht
+    rcases inv.tried t ht with hin | h
+    · rw [hdone] at hin; simp at hin
+    · exact h
+  obtain ⟨t0, ht0⟩ := inv.some
+  have hU : st.U ≠ [] := (hnw t0 ht0).1
+  refine ⟨hU, ?_⟩
+  intro b hb
+  -- U as choice functions
+  have hmap : st.U.map (choiceSum n k P) = (st.U.map (choiceVecAt n P)).map (sumVecTo n k) := by
+    rw [List.map_map]; rfl
+  rw [hmap]
+  apply witness_complete n k P hP (st.U.map (choiceVecAt n P)) (by simpa using hU)
+  · intro c hc o ho
+    obtain ⟨u, hu, rfl⟩ := List.mem_map.mp hc
+    unfold choiceVecAt
+    have hv := (inv.valid u hu).2 o ho
+    rw [List.getD_eq_getElem?_getD, List.getElem?_eq_getElem hv]
+    simp
+  · intro c hc o ho α hα
+    obtain ⟨u, hu, rfl⟩ := List.mem_map.mp hc
+    rw [← hmap]
+    obtain ⟨i, hi, rfl⟩ := List.getElem_of_mem hα
+    have hval := inv.valid u hu
+    -- the varied vector is the value of the choice `u.set o i`
+    have hsame : sumVecTo n k (updSlot (choiceVecAt n P u) o ((P o)[i])) = choiceSum n k P (u.set o i) ∨
+        dot n b (sumVecTo n k (updSlot (choiceVecAt n P u) o ((P o)[i]))) = dot n b (choiceSum n k P (u.set o i)) := by
+      right
+      unfold choiceSum
+      rw [dot_sumVecTo, dot_sumVecTo]
+      apply sumTo_congr
+      intro o' ho'
+      unfold updSlot choiceVecAt
+      rw [getD_set_choice u o o' i (by rw [hval.1]; exact ho)]
+      by_cases h : o' = o
+      · subst h
+        simp only [if_true]
+        rw [List.getD_eq_getElem?_getD, List.getElem?_eq_getElem hi]; simp
+      · simp only [h, if_false]
+    have hdot : dot n b (sumVecTo n k (updSlot (choiceVecAt n P u) o ((P o)[i]))) = dot n b (choiceSum n k P (u.set o i)) := by
+      rcases hsame with h | h
+      · rw [h]
+      · exact h
+    rw [hdot]
+    by_cases hne : i = u.getD o 0
+    · -- not a variation: the vector is u's own
+      have : u.set o i = u := by
+        subst hne
+        apply List.ext_getElem (by simp)
+        intro j h1 h2
+        by_cases hj : j = o
+        · subst hj; simp [List.getD_eq_getElem?_getD, List.getElem?_eq_getElem h2]
+        · simp [List.getElem_set_ne (Ne.symm hj)]
+      rw [this]
+      exact env_ge _ _ _ _ (List.mem_map.mpr ⟨u, hu, rfl⟩)
+    · exact (hnw _ (inv.vars u hu _ (mem_allVars k P u o i ho hi hne))).2 b hb
+
 end AITB.POMDP
